@@ -11,44 +11,57 @@ from pyvc.core import cur
 from pyvc.interp import LoopSpec, assert_same
 from pyvc.sym import And_, Arr, F, Not_, zi
 
-from .ssi_hank import dims, hank_cov_mm
+from .ssi_hank import dims, hank_cov_mm, unit_hank
 
 
-def block_sum(Y, Yref, br, k, Nb, idx):
+def block_sum(Y, Yref, br, k, Nb, idx, clamp=True):
     """unweighted sum over data block k of the products that make up Hankel entry idx = ((i, a), (j, b))"""
     l, r, Ndat, p, q, Nn = dims(Y, Yref, br)
     fy, fr = Y.snapshot_fn(), Yref.snapshot_fn()
     (i, a), (j, b) = idx
     off = sym.mul(k, Nb)
-    return N.make_sum((Nb,), lambda t: sym.mul(fy(((a,), (sym.add(sym.add(sym.add(sym.add(q, 1), i), off), t[0]),))),
+    # Yf / Yp have N - 1 columns: NumPy clamps the block slice [k Nb, (k+1) Nb) to them (the last block is one sample
+    # short when nb divides N) - decided exactly as the slice model decides it, so that both sides speak about one extent
+    ncol = sym.sub(Nn, 1)
+    lo = N._norm_bound(off, ncol, 0)
+    hi = N._norm_bound(sym.mul(sym.add(k, 1), Nb), ncol, ncol)
+    ext = sym.sub(hi, lo)
+    return N.make_sum((ext,), lambda t: sym.mul(fy(((a,), (sym.add(sym.add(sym.add(sym.add(q, 1), i), off), t[0]),))),
                                                fr(((b,), (sym.add(sym.add(sym.sub(q, j), off), t[0]),)))))
 
 
 def factor(c, Y, Yref, br, nb, colmajor, on_scale_of_H, upto=None):
     l, r, Ndat, p, q, Nn = dims(Y, Yref, br)
     Nb = sym.floordiv(Nn, nb)
-    H = hank_cov_mm(Y, Yref, br)
+    U = unit_hank(Y, Yref, br, "cov_mm")        # unit-weight lagged products over the whole window
     rows = (sym.add(p, 1), l)
     cols = (sym.add(p, 1), r)
-    nrow, ncol = sym.prod(rows), sym.prod(cols)
     c.numpy_mode += 1
     try:
         scale = sym.sqrt_(sym.toF(sym.mul(nb, sym.sub(nb, 1))))
-        wk = sym.div(1, sym.toF(Nb)) if on_scale_of_H else sym.div(1, sym.toF(sym.mul(Nn, Nb)))
+        w = sym.div(1, sym.sqrt_(sym.toF(Nn)))
+        ww = sym.mul(w, w)                      # = 1/N: the weight of the full estimate H = ww * U
     finally:
         c.numpy_mode -= 1
+
+    def block_estimate(k, hidx):
+        """H_k: on the scale of H it is (1/Nb) * block sum; the code computes ww * block sum / Nb = H_k / N"""
+        bs = block_sum(Y, Yref, br, k, Nb, hidx)
+        if on_scale_of_H:
+            return sym.div(bs, sym.toF(Nb))
+        return sym.div(sym.mul(ww, bs), sym.toF(Nb))
 
     def cell(idx):
         v, k = idx[0], idx[1][0]
         flat = sym.flat_index(v, Tax)
-        if colmajor:
-            cf, rf = sym.idiv(flat, nrow), sym.imod(flat, nrow)
-        else:
-            rf, cf = sym.idiv(flat, ncol), sym.imod(flat, ncol)
-        hidx = (sym.split_index(rf, rows), sym.split_index(cf, cols))
+        if colmajor:        # column-stacked: v = (col block j, reference b, row block i, channel a), column index major
+            j_, b_, i_, a_ = sym.split_index(flat, cols + rows)
+        else:               # row-stacked: v = (row block i, channel a, col block j, reference b), row index major
+            i_, a_, j_, b_ = sym.split_index(flat, rows + cols)
+        hidx = ((i_, a_), (j_, b_))
         c.numpy_mode += 1
         try:
-            val = sym.div(sym.sub(sym.mul(wk, block_sum(Y, Yref, br, k, Nb, hidx)), H.cell(hidx)), scale)
+            val = sym.div(sym.sub(block_estimate(k, hidx), sym.mul(ww, U.cell(hidx))), scale)
         finally:
             c.numpy_mode -= 1
         if upto is not None:
@@ -67,7 +80,7 @@ class _Factor(Contract):
     bounded_driver = {"driver": "c17_factor", "inputs": {}}
 
     def witness(self, o):
-        return dict(self.bounded_driver)
+        return {"driver": "c17_factor", "inputs": {"claim": "scale" if "scale of the full" in o.oid else ("vec" if "column-stacked" in o.oid else "form")}}
 
     def setup(self, c):
         l = S.integer("l", lo=1)
@@ -89,7 +102,7 @@ def _loop(k, pre, it):
 class factor_today(_Factor):
     """the factor exactly as computed today (row-major vec of H_k / N - H): every other change to the computation fails here"""
     name = "covariance factor, current form"
-    loops = {0: LoopSpec(_loop)}
+    loops = {0: LoopSpec(_loop, dead=("Hcov",))}
 
     def check(self, c, pre, post, outcome):
         if outcome[0] != "return" or not isinstance(outcome[1], tuple) or len(outcome[1]) != 2:
@@ -98,6 +111,25 @@ class factor_today(_Factor):
         H, T = outcome[1]
         want = factor(c, pre["Y"], pre["Yref"], pre["br"], pre["nb"], colmajor=False, on_scale_of_H=False)
         assert_same("T = rowmajor-vec(H_k/N - H)/sqrt(nb(nb-1)) [current, deviant form]", T, want, "post")
-        # the property's factor
-        prop = factor(c, pre["Y"], pre["Yref"], pre["br"], pre["nb"], colmajor=True, on_scale_of_H=True)
-        assert_same("T = column-stacked vec(H_k - H)/sqrt(nb(nb-1)), H_k on the scale of H", T, prop, "post")
+        # the property's factor, one clause at a time (each against the form that differs from today's in that clause only)
+        scale_only = factor(c, pre["Y"], pre["Yref"], pre["br"], pre["nb"], colmajor=False, on_scale_of_H=True)
+        assert_same("block estimates H_k are on the scale of the full estimate H (so that T T^T is the sample covariance of the mean)", T, scale_only, "post")
+        vec_only = factor(c, pre["Y"], pre["Yref"], pre["br"], pre["nb"], colmajor=True, on_scale_of_H=False)
+        assert_same("deviations are column-stacked (the vectorisation the propagation step expects)", T, vec_only, "post")
+
+
+@register
+class propagation_fd(Contract):
+    """main clause: variance = squared directional derivative - a statement about finite differences of a floating-point
+    identification pipeline; no contract over the reals can state it.  Bounded stand-in only."""
+    qualname = "pyoma2.functions.ssi.SSI_fast"
+    props = ("C17",)
+    name = "first-order propagation"
+    bounded_only = True
+    callable_modular = False
+    generic_replay = False
+    bounded_reason = ("unsupported: equality of a reported variance with a squared directional derivative of the whole identification (SVD, QR, inverse, eig, log) "
+                      "is a numerical statement checked against central finite differences; the kernels are uninterpreted in the verifier")
+    bounded_bound = ("exact rank-2m Hankel matrices plus 1e-3 noise, 1-3 channels, 3-5 block rows, order 2m, one random perturbation direction as the only factor column, "
+                     "both vectorisations tried, finite differences at 1e-6 and 1e-7 that must agree to 1e-3")
+    bounded_driver = {"driver": "c17_fd", "inputs": {"trials": 6, "trials_thorough": 40}}
